@@ -363,7 +363,9 @@ func c19Matrix(f func(admitted, fallback bool, handler string)) {
 }
 
 var c19Bools = []bool{true, false}
-var c19Handlers = []string{"ok", "err", "panic"}
+// "errtyped": the handler fails with the framework's own error type carrying a client-error status (where the
+// framework has one; elsewhere it is a second plain failure)
+var c19Handlers = []string{"ok", "err", "panic", "errtyped"}
 
 func c19Name(ep string, admitted, fallback bool, handler string) string {
 	if c19PairTag != "" {
@@ -421,7 +423,7 @@ func TestVerifC19(t *testing.T) {
 				switch handler {
 				case "ok":
 					r.Response.WriteStatus(http.StatusOK, "ok")
-				case "err":
+				case "err", "errtyped":
 					r.Response.WriteStatus(http.StatusInternalServerError, "err")
 				case "panic":
 					panic("c19 handler panic")
